@@ -1,6 +1,8 @@
 package props
 
 import (
+	"bytes"
+	"context"
 	"encoding/binary"
 	"encoding/hex"
 	"encoding/json"
@@ -8,6 +10,7 @@ import (
 	"math"
 	"net/http"
 	"net/http/httptest"
+	"strconv"
 	"strings"
 	"sync"
 
@@ -77,7 +80,33 @@ func (C12) Gen(r *core.Rng, tier string, emit func(string)) {
 		}
 		for k := 0; k < 6; k++ {
 			var p string
-			switch r.Intn(9) {
+			switch r.Intn(11) {
+			case 9: // a stored tile's coordinates with x or y moved out of the 2^z grid by a multiple of 2^z (the tile-ID
+				// arithmetic ignores the high bits: the request must not be answered with that tile)
+				e := ts.entries[r.Intn(len(ts.entries))]
+				z, x, y := pmtiles.IDToZxy(e.TileID + uint64(r.Intn(int(e.RunLength))))
+				k := uint64(1 + r.Intn(3))
+				xx, yy := uint64(x), uint64(y)
+				switch r.Intn(3) {
+				case 0:
+					xx += k << z
+				case 1:
+					yy += k << z
+				default:
+					xx += k << z
+					yy += (k + 1) << z
+				}
+				p = fmt.Sprintf("/%s/%d/%d/%d.%s", name, z, xx, yy, trueExt)
+			case 10: // numbers that do not fit their field
+				e := ts.entries[r.Intn(len(ts.entries))]
+				z, x, y := pmtiles.IDToZxy(e.TileID)
+				p = []string{
+					fmt.Sprintf("/%s/%d/%d/%d.%s", name, 256+int(z), x, y, trueExt),
+					fmt.Sprintf("/%s/%d/%d/%d.%s", name, z, uint64(x)+1<<32, y, trueExt),
+					fmt.Sprintf("/%s/%d/%d/%d.%s", name, z, x, uint64(y)+1<<32, trueExt),
+					fmt.Sprintf("/%s/%d/4294967296/18446744073709551616.%s", name, z, trueExt),
+					fmt.Sprintf("/%s/0%d/00%d/000%d.%s", name, z, x, y, trueExt), // zero-padded decimal: the same tile
+				}[r.Intn(5)]
 			case 0, 1, 2: // stored tile, right extension
 				e := ts.entries[r.Intn(len(ts.entries))]
 				z, x, y := pmtiles.IDToZxy(e.TileID + uint64(r.Intn(int(e.RunLength))))
@@ -291,7 +320,54 @@ func (C12) Oracle(line, goOut string) string {
 		return ""
 	}
 	w, body0 := c12Do(c)
+	// a tile request is answered 200 only for coordinates inside the zoom's grid, read as plain decimal numbers
+	if segs := strings.Split(c.path, "/"); len(segs) >= 5 && w.Code == 200 && strings.HasPrefix(c.path, "/"+c.name+"/") && len(segs) == len(strings.Split(c.name, "/"))+4 {
+		last := segs[len(segs)-1]
+		if i := strings.LastIndex(last, "."); i > 0 {
+			z, e1 := strconv.ParseUint(segs[len(segs)-3], 10, 64)
+			x, e2 := strconv.ParseUint(segs[len(segs)-2], 10, 64)
+			y, e3 := strconv.ParseUint(last[:i], 10, 64)
+			if e1 != nil || e2 != nil || e3 != nil || z > 31 || x >= 1<<z || y >= 1<<z {
+				return fmt.Sprintf("request %s names no tile (coordinates outside the 2^z grid or not numbers of the field's width) but was answered 200 with tile data", c.path)
+			}
+			ra := readWholeArchive(c.archive)
+			if want, ok := ra.tileAt(pmtiles.ZxyToID(uint8(z), uint32(x), uint32(y))); !ok || !bytes.Equal(want, body0) {
+				return fmt.Sprintf("request %s answered 200 with bytes that are not the stored bytes of tile %d/%d/%d", c.path, z, x, y)
+			}
+		}
+	}
 	if ok, n, _, _, _, _ := pmtiles.VerifParseTilePath(c.path); ok && n == c.name && w.Code == 200 {
+		// a body handed out by Server.Get stays what it was while later requests are served
+		s3, _ := pmtiles.NewServerWithBucket(pmtiles.VerifNewMemoryBucket(map[string][]byte{c.name + ".pmtiles": c.archive}), "", discardLogger, 8, "http://public")
+		s3.Start()
+		_, _, b1 := s3.Get(context.Background(), c.path)
+		keep := append([]byte{}, b1...)
+		ra := readWholeArchive(c.archive)
+		for k := 0; k < len(ra.flat) && k < 4; k++ {
+			z, x, y := pmtiles.IDToZxy(ra.flat[len(ra.flat)-1-k].TileID)
+			s3.Get(context.Background(), fmt.Sprintf("/%s/%d/%d/%d.%s", c.name, z, x, y, c.path[strings.LastIndex(c.path, ".")+1:]))
+		}
+		if !bytes.Equal(b1, keep) {
+			return "the body returned for " + c.path + " changed after later requests were served (shared or recycled buffer)"
+		}
+		// replaced by a version that differs only in the declared tile compression / type: the first answer after
+		// the replacement carries the new version's content headers, not remembered ones
+		items := map[string][]byte{c.name + ".pmtiles": c.archive}
+		s4, _ := pmtiles.NewServerWithBucket(pmtiles.VerifNewMemoryBucket(items), "", discardLogger, 8, "http://public")
+		s4.Start()
+		s4.Get(context.Background(), c.path)
+		h2 := c.h
+		h2.TileCompression = map[pmtiles.Compression]pmtiles.Compression{pmtiles.Gzip: pmtiles.NoCompression, pmtiles.NoCompression: pmtiles.Zstd, pmtiles.Brotli: pmtiles.NoCompression, pmtiles.Zstd: pmtiles.Gzip}[c.h.TileCompression]
+		if h2.TileCompression != 0 {
+			b2 := append([]byte{}, c.archive...)
+			copy(b2, pmtiles.SerializeHeader(h2))
+			items[c.name+".pmtiles"] = b2
+			st2, hd2, _ := s4.Get(context.Background(), c.path)
+			want := map[pmtiles.Compression]string{pmtiles.Gzip: "gzip", pmtiles.Brotli: "br", pmtiles.Zstd: "zstd"}[h2.TileCompression]
+			if st2 == 200 && hd2["Content-Encoding"] != want {
+				return fmt.Sprintf("after the archive was replaced by one with tile compression %d, %s was answered with Content-Encoding %q, want %q", h2.TileCompression, c.path, hd2["Content-Encoding"], want)
+			}
+		}
 		// content headers of a tile are a function of the header's tile type and TILE compression
 		wantCE := map[pmtiles.Compression]string{pmtiles.Gzip: "gzip", pmtiles.Brotli: "br", pmtiles.Zstd: "zstd"}[c.h.TileCompression]
 		if got := w.Header().Get("Content-Encoding"); got != wantCE {
